@@ -436,6 +436,9 @@ impl RdbEngine {
                     // Get value
                     match storage.get(db_idx, &key)? {
                         GetResult::Found(value) => {
+                            #[cfg(feature = "verif")]
+                            crate::verif::gate("rdb.after_value");
+                            
                             // Get TTL if any
                             let ttl = storage.ttl(db_idx, &key)?;
                             
@@ -567,6 +570,8 @@ impl<W: Write> RdbWriter<W> {
                 // Get all items and write them
                 let len = skiplist.len();
                 self.write_length(len)?;
+                #[cfg(feature = "verif")]
+                crate::verif::gate("rdb.zset.after_len");
                 
                 // Note: This is a suboptimal approach since we need to materialize
                 // all members in memory. A better approach would be to have a streaming
@@ -682,6 +687,8 @@ impl<W: Write> RdbWriter<W> {
     
     /// Write raw bytes
     fn write_raw(&mut self, data: &[u8]) -> io::Result<()> {
+        #[cfg(feature = "verif")]
+        crate::verif::rdb_write_hook()?;
         self.writer.write_all(data)?;
         self.bytes_written += data.len() as u64;
         // Update CRC (simplified - real implementation would use CRC64)
